@@ -108,6 +108,11 @@ impl<S: BuildHasher + Clone + 'static> PolicyProcessor<S> {
 
     #[inline]
     fn spawn(self) -> JoinHandle<()> {
+        #[cfg(transparencies_stretto_verif)]
+        if crate::verif::parked() {
+            crate::verif::park(self);
+            return spawn(|| ());
+        }
         spawn(move || loop {
             select! {
                 recv(self.items_rx) -> items => self.handle_items(items),
@@ -142,3 +147,31 @@ unsafe impl<S: BuildHasher + Clone + 'static> Send for PolicyProcessor<S> {}
 unsafe impl<S: BuildHasher + Clone + 'static> Sync for PolicyProcessor<S> {}
 
 impl_policy!(LFUPolicy);
+
+#[cfg(transparencies_stretto_verif)]
+impl<S: BuildHasher + Clone + 'static + Send> PolicyProcessor<S> {
+    /// One iteration of the worker loop taking the items branch, if a batch is queued.
+    pub(crate) fn verif_step_items(&mut self) -> Option<Vec<u64>> {
+        match self.items_rx.try_recv() {
+            Ok(items) => {
+                let copy = items.clone();
+                self.handle_items(Ok(items));
+                Some(copy)
+            }
+            Err(_) => None,
+        }
+    }
+
+    /// One iteration taking the stop branch.
+    pub(crate) fn verif_step_stop(&mut self, timeout: std::time::Duration) -> bool {
+        self.stop_rx.recv_timeout(timeout).is_ok()
+    }
+
+    pub(crate) fn verif_pending(&self) -> usize {
+        self.items_rx.len()
+    }
+
+    pub(crate) fn verif_spawn(self) {
+        self.spawn();
+    }
+}
